@@ -195,6 +195,7 @@ class FnSpec:
         self.attrs = []
         self.ret = 'r'
         self.ghost_lines = 0
+        self.twin_as = None
 
 
 _BT = r'`([^`]*)`'
@@ -203,7 +204,7 @@ _BT = r'`([^`]*)`'
 def parse_opts(rest):
     """split `a b=c `quoted`` style directive arguments"""
     quoted = re.findall(_BT, rest)
-    bare = re.sub(_BT, ' \x00 ', rest).split()
+    bare = [b for b in re.sub(_BT, ' \x00 ', rest).split() if b != '\x00']
     return bare, quoted
 
 
@@ -218,6 +219,7 @@ class Extractor:
         self.container = None       # (kind, item, src) currently open impl / trait
         self.force_external = False
         self.obligation_items = []  # names of extracted fns
+        self.contracts = {}         # named contract text shared by several fn directives
 
     def src(self, rel):
         if rel not in self.sources:
@@ -276,19 +278,37 @@ class Extractor:
                 self.container = None
             elif word == 'assoc':
                 self._assoc(bare[0])
-            elif word in ('fn', 'freefn'):
+            elif word == 'contract':
+                tl = []
+                self.contracts[bare[0]] = tl
+                target = tl
+            elif word == 'endcontract':
+                target = None
+            elif word == 'use-contract':
+                cl = list(self.contracts[bare[0]])
+                for o in bare[1:]:
+                    if o.startswith('subst='):
+                        a, b = o[6:].split(':')
+                        cl = [re.sub(r'\b%s\b' % re.escape(a), b, l) for l in cl]
+                cur.spec.extend(cl)
+            elif word in ('fn', 'freefn', 'twinfn'):
                 if word == 'freefn':
                     cur_src, nm, opts = bare[0], bare[1], bare[2:]
+                elif word == 'twinfn':
+                    cur_src, nm, opts = (bare[0], quoted[0]), bare[1], bare[2:]
                 else:
                     cur_src, nm, opts = None, bare[0], bare[1:]
                 cur = FnSpec(nm)
+                for o in opts:
+                    if o.startswith('as='):
+                        cur.twin_as = o[3:]
                 cur_kind = word
                 cur.external = ('external' in opts) or self.force_external
                 for o in opts:
                     if o.startswith('name='):
                         cur.obl = o[5:]
                 target = cur.spec
-            elif word in ('after', 'before', 'after-let', 'loop', 'body-start', 'before-tail'):
+            elif word in ('after', 'before', 'after-let', 'loop', 'body-start', 'before-tail', 'stmt-before-each'):
                 k = None
                 label = None
                 for b in bare:
@@ -377,7 +397,18 @@ class Extractor:
 
     def _expanded_impl(self, header):
         src = self.expanded_provider()
-        it = src.find_impl(header)
+        want = norm(header)
+        cands, stack = [], [(0, len(src.text))]
+        while stack:
+            l, h = stack.pop()
+            for x in src.items(l, h):
+                if x.kind == 'impl' and x.header == want:
+                    cands.append(x)
+                elif x.kind == 'mod' and x.body_open is not None:
+                    stack.append((x.body_open + 1, x.end - 1))
+        if len(cands) != 1:
+            raise LostAnchor('macro-expanded source: expected exactly one `%s`, found %d' % (want, len(cands)))
+        it = cands[0]
         text = src.text[it.attr_end:it.end]
         text = global_rules(text, 'rustc-expanded:src/lib.rs', 0, self.log)
         self.out.emit(text, 'repo', 'expanded::' + norm(header), 'rustc -Zunpretty=expanded', None)
@@ -404,6 +435,14 @@ class Extractor:
             it = src.find('fn', spec.name, cfg=self.cfg)
             oname = spec.obl or spec.name
             indent = ''
+        elif kind == 'twinfn':
+            rel, hdr = free_src
+            src = self.src(rel)
+            cit = src.find_impl(hdr, cfg=self.cfg)
+            lo, hi = cit.body_span()
+            it = src.find('fn', spec.name, lo + 1, hi, cfg=self.cfg)
+            oname = spec.obl or self._obl_name(norm(hdr), spec.name)
+            indent = '    '
         else:
             if self.container is None:
                 raise ValueError('fn %s outside impl/trait' % spec.name)
@@ -483,6 +522,28 @@ class Extractor:
                     j += 1
                 edits.append((j + 1, 0, ghost(e['lines']), True))
                 spec.ghost_lines += len(e['lines'])
+            elif op == 'stmt-before-each':
+                ms = [m for m in flex(e['anchor']).finditer(seg) if mask[lo + m.start()]]
+                if not ms:
+                    raise LostAnchor('%s: fn %s: `%s` does not occur' % (rel, spec.name, e['anchor']))
+                starts = set()
+                for m in ms:
+                    j = lo + m.start() - 1
+                    depth = 0
+                    while j > bopen:
+                        if mask[j]:
+                            c = text[j]
+                            if c in ')]':
+                                depth += 1
+                            elif c in '([':
+                                depth -= 1
+                            elif depth <= 0 and c in ';{}':
+                                break
+                        j -= 1
+                    starts.add(j + 1)
+                for st in sorted(starts):
+                    edits.append((st, 0, ghost(e['lines']), True))
+                    spec.ghost_lines += len(e['lines'])
             elif op == 'body-start':
                 edits.append((bopen + 1, 0, ghost(e['lines']), True))
                 spec.ghost_lines += len(e['lines'])
@@ -530,6 +591,11 @@ class Extractor:
                 m = find_anchor(seg, e['frm'], None)
                 self.log.rw(e['rule'], rel, line0 + text.count('\n', 0, lo + m.start()), norm(e['frm']), norm(e['to']))
                 edits.append((lo + m.start(), m.end() - m.start(), e['to'], False))
+        if kind == 'twinfn' and spec.twin_as:
+            m = re.search(r'\bfn\s+' + re.escape(spec.name) + r'\b', text)
+            edits.append((m.start(), m.end() - m.start(), 'fn ' + spec.twin_as, False))
+            self.log.rw('R12', rel, line0, 'fn %s (method of a trait impl)' % spec.name,
+                        'fn %s (inherent method, identical text; the trait-impl method itself is left external with the trait contract)' % spec.twin_as)
         # --- signature: name the return value, insert spec lines
         sig_end = body_open if has_body else text.rstrip().rfind(';')
         if spec.spec:
@@ -537,6 +603,12 @@ class Extractor:
             if arrow is not None:
                 t0, t1 = arrow
                 rt = text[t0:t1].strip()
+                if kind == 'twinfn':
+                    mt = re.match(r'impl(?:<[^>]*>)?\s+(\w+)(?:<[^>]*>)?\s+for\b', norm(free_src[1]))
+                    if mt and 'Self::' in rt:
+                        rt2 = re.sub(r'\bSelf::(\w+)', r'<Self as %s>::\1' % mt.group(1), rt)
+                        self.log.rw('R12', rel, line0, rt, rt2)
+                        rt = rt2
                 if not rt.startswith('(' + spec.ret + ':'):
                     edits.append((t0, t1 - t0, ' (%s: %s)' % (spec.ret, rt), False))
                     self.log.rw('RET', rel, line0 + text.count('\n', 0, t0), '-> ' + rt, '-> (%s: %s)' % (spec.ret, rt))
